@@ -716,6 +716,16 @@ func (c *rcluster) liveWorkers() []*rworker {
 	return out
 }
 
+func (c *rcluster) reachableWorkers() int {
+	n := 0
+	for _, w := range c.liveWorkers() {
+		if !w.mute.Load() {
+			n++
+		}
+	}
+	return n
+}
+
 // settle: every live worker heartbeats; returns once the job's task queue has processed all of it.
 func (c *rcluster) heartbeats() {
 	for _, w := range c.liveWorkers() {
@@ -763,7 +773,7 @@ func (c *rcluster) recover(maxRounds int) (rview, bool) {
 		if round >= maxRounds {
 			time.Sleep(20 * time.Millisecond)
 		}
-		for len(c.liveWorkers()) < c.W {
+		for c.reachableWorkers() < c.W { // a live worker whose heartbeats do not arrive cannot be part of an assembly
 			c.addWorker()
 		}
 		// fresh workers register from their own goroutines
@@ -822,7 +832,7 @@ func (c *rcluster) allRegisteredOnce() bool {
 		}
 	}
 	for _, w := range c.liveWorkers() {
-		if !seen[w.opID] || !seen[w.srID] {
+		if !w.mute.Load() && (!seen[w.opID] || !seen[w.srID]) {
 			return false
 		}
 	}
